@@ -733,3 +733,6 @@ def run(R, ctx):
     raw(R, ctx)
     wrap_points(R, ctx)
     reparse(R, ctx)
+    # 'the same literal values': the string writer shared by the generators, decided as under C13 (singles + long forms)
+    from . import c13
+    c13.strings(R, ctx, "quick", rid="C02.strings", light=True)
